@@ -602,6 +602,34 @@ def bounds(tier):
     return {'crash_points': 'all (symbolic step index)'}
 
 
+def strat_bits(tier):
+    base = [[0, 0, 1, 0, 0, 0], [1, 0, 0, 0, 0, 1]]
+    if tier == 'quick':
+        return base
+    import itertools
+    return base + [list(v) for v in itertools.product((0, 1), repeat=6)
+                   if list(v) not in base]
+
+
+def main_bits(tier):
+    base = [[1, 0, 1, 1, 0, 1]]
+    if tier == 'quick':
+        return base
+    return base + [[0, 0, 0, 0, 0, 0], [1, 1, 1, 1, 1, 1], [0, 1, 0, 1, 1, 0],
+                   [1, 1, 0, 0, 1, 0], [0, 0, 1, 1, 0, 1], [1, 0, 0, 1, 1, 1],
+                   [0, 1, 1, 0, 0, 0]]
+
+
+def par_bits(tier):
+    base = [list(b) for b in PAR_BITS]
+    if tier == 'quick':
+        return base
+    import random
+    rnd = random.Random(6)
+    return base + [[rnd.randint(0, 1) for _ in range(rnd.randint(6, 12))]
+                   for _ in range(28)]
+
+
 def partitions(tier):
     parts = [{'name': 'direct', 'fn': make_direct(False), 'setup': _setup,
               'budget_s': 160, 'bounds': {'writes': 'visible immediately'}},
@@ -609,17 +637,19 @@ def partitions(tier):
               'budget_s': 160,
               'bounds': {'writes': 'buffered until flush/close'}}]
     for st in ('hierarchical', 'ddmin'):
-        for k, bits in enumerate(([0, 0, 1, 0, 0, 0], [1, 0, 0, 0, 0, 1])):
+        for k, bits in enumerate(strat_bits(tier)):
             parts.append({'name': f'{st}_{k}',
                           'fn': make_strategy(st, bits), 'setup': _setup,
                           'budget_s': 160,
                           'bounds': {'strategy': st, 'oracle_bits': bits}})
     for st in ('hierarchical', 'ddmin', 'hybrid'):
-        parts.append({'name': f'main_{st}',
-                      'fn': make_main(st, [1, 0, 1, 1, 0, 1]),
-                      'setup': _setup, 'budget_s': 160,
-                      'bounds': {'entry': 'cli.ddsmt_main', 'strategy': st}})
-    for k, bits in enumerate(PAR_BITS):
+        for k, bits in enumerate(main_bits(tier)):
+            parts.append({'name': f'main_{st}' + (f'_{k}' if k else ''),
+                          'fn': make_main(st, bits),
+                          'setup': _setup, 'budget_s': 160,
+                          'bounds': {'entry': 'cli.ddsmt_main', 'strategy': st,
+                                     'oracle_bits': bits}})
+    for k, bits in enumerate(par_bits(tier)):
         parts.append({'name': f'par_{k}', 'fn': make_par(list(bits)),
                       'setup': _setup, 'budget_s': 160,
                       'bounds': {'strategy': 'ddmin -j2 (_check_par)',
@@ -714,8 +744,10 @@ def replay(part, cex):
     try:
         if part == 'direct':
             return direct_body(cex['n'], cex['fmt'])
+        import os
+        tier = os.environ.get('VERIF_TIER_REPLAY', 'quick')
         if part.startswith('par_'):
-            r = par_body(cex['n'], list(PAR_BITS[int(part[4:])]))
+            r = par_body(cex['n'], list(par_bits(tier)[int(part[4:])]))
             return None if r == 'skip' else r
         if part == 'sigint':
             r = run_sigint()
@@ -723,9 +755,11 @@ def replay(part, cex):
         if part == 'directbuf':
             return direct_body(cex['n'], cex['fmt'], True)
         if part.startswith('main_'):
-            return main_body(cex['n'], part[5:], [1, 0, 1, 1, 0, 1])
+            f = part.split('_')
+            k = int(f[2]) if len(f) > 2 else 0
+            return main_body(cex['n'], f[1], main_bits(tier)[k])
         st, k = part.split('_')
-        bits = ([0, 0, 1, 0, 0, 0], [1, 0, 0, 0, 0, 1])[int(k)]
+        bits = strat_bits(tier)[int(k)]
         r = strategy_body(cex['n'], st, bits)
         return None if r == 'skip' else r
     except Exception as e:
